@@ -2,7 +2,7 @@
     exactly the conventional document (C02.Spec.senc) of every conformant value. *)
 From Coq Require Import ZArith List Bool Lia Arith ZifyBool.
 From SpyneV Require Import Base.Prelude Base.Digits Base.Ext Wire.Utf8 Wire.Decimal Wire.Dict.
-From SpyneV Require Import C02.Spec C02.Utf8Proofs C02.Lists.
+From SpyneV Require Import Gen.DictDoc C02.GenProofs C02.Spec C02.Utf8Proofs C02.Lists.
 Import ListNotations.
 Open Scope Z_scope.
 
@@ -71,6 +71,9 @@ Section Eqs.
     | f :: r, x :: s => member_conf c U poly f x && mconf r s
     | _, _ => false
     end.
+
+  Lemma mconf_eq ffs : forall fs, mconf ffs fs = members_conf c U poly ffs fs.
+  Proof. induction ffs as [|f r IH]; intros [|x s]; reflexivity. Qed.
 
   Lemma conf_obj multi t d fs :
     conf' multi t (DObj d fs)
@@ -160,7 +163,7 @@ Section Enc.
   Hypothesis Hresp : negb (c_list c) || c_iw c = true.
 
   Lemma sleaf_nonnull k l : leaf_ok c k l = true -> jv_is_null (sleaf c st k l) = false.
-  Proof.
+  Proof using.
     destruct k, l; cbn [leaf_ok sleaf]; try discriminate; intros _;
       unfold stext;
       repeat match goal with |- context [if ?b then _ else _] => destruct b end;
@@ -169,7 +172,8 @@ Section Enc.
   Qed.
 
   Lemma conf_nonnull multi t v : conf' multi t v = true -> jv_is_null (senc' multi t v) = false.
-  Proof.
+  Proof using Hwf.
+    clear Hresp Hkey Hleaf Hpoly.
     destruct v as [|l|d fs|xs|j]; try discriminate.
     - cbn [conf senc]. destruct t; try (rewrite andb_false_r; discriminate).
       intros H. apply andb_true_iff in H as [_ H]. apply sleaf_nonnull, H.
@@ -233,6 +237,7 @@ Section Enc.
       - rewrite map_length. exact L1.
       - rewrite E1, map_app in Hnd. cbn [map] in Hnd. eapply NoDup_app_head, Hnd. }
     rewrite Hg. destruct (Hrec f x (or_introl eq_refl)) as [Hr Hn]. rewrite Hr. cbn [bind].
+    rewrite member_written_spec.
     specialize (IH fsuf (pre ++ [f]) (fpre ++ [x])).
     rewrite app_length in IH. cbn [length] in IH.
     replace (length pre + 1)%nat with (S (length pre)) in IH by lia.
@@ -271,13 +276,23 @@ Section Enc.
 
   (** ** the main induction: on the nesting depth of the value *)
   Lemma strip_arr_multi t : strip_arr c true t = (true, t).
-  Proof. unfold strip_arr. cbn [negb]. rewrite andb_false_r. reflexivity. Qed.
+  Proof.
+    destruct t; cbn [strip_arr]; try reflexivity. unfold occ.
+    rewrite strip_cond_repeated, andb_false_r. reflexivity.
+  Qed.
 
   Lemma strip_arr_prim k : strip_arr c false (DPrim k) = (false, DPrim k).
-  Proof. unfold strip_arr. destruct (c_iw c && negb false); reflexivity. Qed.
+  Proof. reflexivity. Qed.
 
   Lemma strip_arr_ref d : strip_arr c false (DRef d) = (false, DRef d).
-  Proof. unfold strip_arr. destruct (c_iw c && negb false); reflexivity. Qed.
+  Proof. reflexivity. Qed.
+
+  Lemma strip_arr_arr e :
+    strip_arr c false (DArr e) = if c_iw c then (true, e) else (false, DArr e).
+  Proof.
+    cbn [strip_arr]. unfold occ. rewrite strip_cond_single, andb_true_r.
+    destruct (c_iw c); [apply strip_arr_multi|reflexivity].
+  Qed.
 
   Lemma is_none_true v : is_none v = true -> v = DNone.
   Proof. destruct v; cbn; congruence. Qed.
@@ -366,7 +381,7 @@ Section Enc.
       apply HQ; [exact Hd|exact Hc'|lia].
     - destruct t as [k0|c0|e]; try discriminate.
       assert (Hn : (1 <= n)%nat) by (cbn [vdepth] in Hd; lia).
-      cbn [o2d]. unfold strip_arr. cbn [negb]. rewrite andb_true_r.
+      cbn [o2d]. rewrite strip_arr_arr.
       destruct (c_iw c) eqn:Hiw; cbv beta iota zeta.
       + rewrite senc_arr. rewrite conf_arr in Hc.
         rewrite (mapM_ok _ (senc' false e)); [reflexivity|].
